@@ -6,7 +6,8 @@
 From DV Require Import Base.Prelude Model.NameM Model.TokM Model.RdTextM.
 From DV Require Import Proofs.NameValid Proofs.NameOrder Proofs.NameText.
 From DV Require Import Proofs.TokEsc Proofs.TokTxt Proofs.TokWords Proofs.TokDec Proofs.TokHex
-     Proofs.TokShape Proofs.TokGeneric Proofs.TokUtf8 Proofs.RdTextName Proofs.RdTextAddr Proofs.RdTextBitmap Proofs.RdTextTypes Proofs.RdTextB32 Proofs.RdTextSig Proofs.RdTextEui Proofs.RdTextFmtHex Proofs.RdText Proofs.RdTextRel Proofs.RdTextWire.
+     Proofs.TokShape Proofs.TokGeneric Proofs.TokUtf8 Proofs.RdTextName Proofs.RdTextAddr Proofs.RdTextBitmap Proofs.RdTextTypes Proofs.RdTextB32 Proofs.RdTextSig Proofs.RdTextEui Proofs.RdTextFmtHex Proofs.RdText Proofs.RdTextRel Proofs.RdTextWire Proofs.RdTextSchemaTie.
+From DV Require Model.SchemaM.
 Open Scope Z_scope.
 
 (* ------------------------------------------------------------------ character-strings *)
@@ -573,6 +574,24 @@ Theorem text_then_wire : forall c fs chk st vs st',
   class_from_text c fs chk st = Ok (vs, st') -> Forall2 wire_ok fs vs.
 Proof. exact class_from_text_wire. Qed.
 Print Assumptions text_then_wire.
+
+(* the same, tied to the C02 wire model (Model/SchemaM.v, read-only): for the types whose fields are all
+   self-delimiting (integers, counted strings, names) the values returned by from_text are valid values of the
+   corresponding SchemaM fields, so SchemaM.encode_rdata passes its constructor-validation step and is the
+   field encoder itself *)
+Theorem text_then_schema_encoder : forall c fs chk st vs st' wfs origin,
+  to_fields fs = Some wfs -> class_from_text c fs chk st = Ok (vs, st') ->
+  exists xs, to_vals vs = Some xs /\
+    SchemaM.encode_rdata origin wfs SchemaM.CkNone xs = SchemaM.enc_fields origin wfs xs.
+Proof. exact RdTextSchemaTie.text_then_schema_encoder. Qed.
+Print Assumptions text_then_schema_encoder.
+
+Example text_then_schema_encoder_types :
+  tie_types = [2; 5; 6; 12; 13; 15; 17; 18; 19; 21; 23; 26; 27; 33; 35; 36; 39; 107; 196609]
+  (* NS CNAME SOA PTR HINFO MX RP AFSDB X25 RT NSAP-PTR PX GPOS SRV NAPTR KX DNAME LP and A of class CH *)
+  /\ match schema_of 15 with Some fs => to_fields fs | None => None end
+     = Some [SchemaM.FS (SchemaM.FU 2 65535); SchemaM.FS (SchemaM.FName true)].
+Proof. split; vm_compute; reflexivity. Qed.
 
 Theorem text_then_wire_field : forall c f st raw st' v,
   parse_field c f st = Ok (raw, st') -> ctor_field f raw = Ok v -> wire_ok f v.
